@@ -12,6 +12,11 @@ Tie to the code (model: coq/theories/Population.v [create], lemmas: PopulationPr
                    rows, duplicate labels, a second writer with equal / conflicting values, no new column.
                    Observed: the table at the entry of every initializer and after every action, the labels
                    returned, the initializer log, the manager's flags.
+  stream `edge`    (python oracle only; the model has no counterpart) creations requested from a post_setup or a
+                   simulation_end listener - the life cycle refuses the manager's own update there; the outcome class
+                   is recorded, not asserted - and nested inside an initializer (during the initial creation and during
+                   a birth): labels handed out are the consecutive fresh ones, rows are never lost, existing cells keep
+                   their values.
 Direct oracle: labels == range(old_len, old_len+count); rows afterwards 0..old_len+count-1; at the entry of the first
 initializer every old cell has its old value (up to int64/float64) and the new rows are null; every probe called
 exactly once with index == the new labels, the user data given, creation_time == clock, creation_window == step size
@@ -29,7 +34,8 @@ RULE = ("births: generated programs (see module doc) on real InteractiveContexts
         "population with births of 0 and several creations per step, two components with equal and conflicting initial "
         "values).  distinct = distinct program; trivial = no creation after the initial one and no update attempted")
 ASSUMPTIONS = [
-    "cells are bool, int64 with |z| <= 2^53, float64 multiples of 0.5 (or NaN), strings from a fixed pool, whole-day "
+    "cells are bool, int64 (mostly small; the boundary +-2^53; beyond it at low density: finding F-Z), float64 multiples "
+    "of 0.5 (or NaN), strings from a fixed pool, whole-day "
     "datetime64[us] (or NaT); see C11",
     "initializers are deterministic functions of (SimulantData, table) that act on the table through view updates only "
     "(strategy trees in the model; the probe scripts of the harness); the clock and step size are inputs of the model, "
@@ -60,17 +66,17 @@ CLAIM = {
             "from outside and from listeners, probe initializers with scripts), Coq comparing the full table after every "
             "action, the returned labels and the initializer log; a python oracle checks labels, old rows, log and flags.",
     "note": "Sampled correspondence (not exhaustive); the manager's own initializer is not observed directly (its effect "
-            "is); F-L (open known finding) reproduced as KNOWN-FINDING; NEW finding reported: int64 values beyond 2^53 of "
-            "existing simulants are rounded by any birth (reindex promotes int64 to float64) - class kept out of the "
-            "generator, witness proved in props/C13.v (C13_bigint_refuted) and replayable with VERIF_POP_BIGINT=1.",
+            "is); the open known findings F-L and F-Z (int64 values beyond 2^53 of existing simulants are rounded by any "
+            "birth: reindex promotes int64 to float64) are reproduced on every run as KNOWN-FINDING (witnesses proved in "
+            "props/C13.v: C13_wrong_dtype_refuted, C13_bigint_refuted); creations requested from post_setup / "
+            "simulation_end listeners and from inside an initializer (stream `edge`) are checked by the python oracle only.",
 }
 LEVEL_NOTE = ""
 
 
 def _corpus():
     c = popdrv.corpus_creations() + popdrv.corpus_updates()[:2]
-    if os.environ.get("VERIF_POP_BIGINT") or is_open_finding(PROPERTY, "F-S"):
-        c += popdrv.corpus_bigint()
+    c += popdrv.corpus_bigint()             # finding F-Z (open)
     return c
 
 
@@ -80,6 +86,10 @@ def streams(tier):
                gen=lambda rng: popdrv.gen_program(rng, "create"), run=popdrv.run_program, corpus=_corpus,
                n_quick=230, n_thorough=2400, finding_of=popdrv.finding_of,
                doc="creation histories on real contexts: labels, old rows, initializer log, full-table comparison"),
+        Stream(name="edge", imports="From Viv Require Import Common Population.", check="check_pop",
+               gen=popdrv.gen_edge, run=popdrv.run_edge, n_quick=40, n_thorough=300,
+               doc="python oracle only: creations from post_setup / simulation_end listeners (outcome class recorded) and "
+                   "nested inside an initializer - labels fresh and consecutive, no row lost, existing cells keep their values"),
     ]
 
 
